@@ -61,8 +61,42 @@ def cli_part(ck, tier):
                     cases.append(("d", p, t, max(int(peak * frac), 1), False, label, peak))
                     cases.append(("dmt", p, t, max(int(peak * frac), 1), False, label, peak))
 
+        # the other operations that decode: --test (also of a raw stream, whose dictionary size comes from the command line) and --list
+        # (its memory is the Index: a file of 30000 empty Streams needs several MiB of Index memory, far more than the allowance)
+        RAWOPT = ["--format=raw", "--lzma2=dict=8MiB,preset=0"]
+        rc, peak, out, err = run(RAWOPT + ["-c"], src)
+        if rc == 0:
+            rawfn = os.path.join(d, "raw.bin"); open(rawfn, "wb").write(out)
+            rc, rawneed, out, err = run(RAWOPT + ["-dc"], rawfn)
+            for frac, label in ((0.1, "need/10"), (0.9, "0.9 need"), (1.5, "1.5 need")):
+                cases.append(("draw", 0, 1, max(int(rawneed * frac), 1), False, label, rawneed))
+                cases.append(("traw", 0, 1, max(int(rawneed * frac), 1), False, label, rawneed))
+        else:
+            ck.fail("c09:cli:baseline", f"xz --format=raw failed (rc={rc})")
+        for p, fn in comp_files.items():
+            rc, peak, out, err = run(["-t", "-T1"], fn)
+            for frac, label in ((0.25, "need/4"), (0.9, "0.9 need"), (1.5, "1.5 need")):
+                cases.append(("t", p, 1, max(int(peak * frac), 1), False, label, peak))
+        rc, peak, out, err = run(["-c"], os.devnull)
+        listfn = os.path.join(d, "many-streams.xz"); open(listfn, "wb").write(out * 30000)
+        rc, listneed, out, err = run(["-l", listfn], os.devnull)
+        if rc != 0 or len(open(listfn, "rb").read()) != 32 * 30000:
+            ck.fail("c09:cli:baseline", f"xz -l on 30000 empty Streams failed (rc={rc}): {err[:200]}")
+        else:
+            for frac, label in ((0.0, "1 byte"), (0.1, "need/10"), (0.5, "need/2"), (4.0, "4 need")):
+                cases.append(("l", 0, 1, max(int(listneed * frac), 1), False, label, listneed))
+
         def one(c):
             kind, p, t, lim, noadj, label, need = c
+            if kind in ("draw", "traw", "t", "l"):
+                a = {"draw": RAWOPT + ["-dc"], "traw": RAWOPT + ["-t"], "t": ["-t", "-T1"], "l": ["-l"]}[kind] + ["--memlimit-decompress=%d" % lim]
+                if kind == "l":
+                    rc, peak, out, err = run(a + [listfn], os.devnull)
+                else:
+                    rc, peak, out, err = run(a, rawfn if kind in ("draw", "traw") else comp_files[p])
+                if kind == "draw" and rc == 0 and out != data:
+                    err = "WRONG-DATA"; rc = 99
+                return c, rc, peak, (data if kind != "draw" or rc == 0 else out), err, None
             if kind == "c":
                 args = ["-%d" % p, "-T%d" % t, "--block-size=40000", "--memlimit-compress=%d" % lim, "-c"] + (["--no-adjust"] if noadj else [])
                 rc, peak, out, err = run(args, src)
@@ -98,7 +132,8 @@ def cli_part(ck, tier):
             else:
                 if not re.search(r"[Mm]emory usage limit|memory usage limit|limit", err):
                     ck.fail(f"c09:cli:fails-without-memlimit-message:{kind}", f"{what}: exit {rc} without a memory-limit message: {err[:200]}")
-                if kind == "d" and lim >= need + allowance:
+                # (the limit is compared with liblzma's estimate, an upper bound: for --list the Index estimate is well above the heap really used, so only a generous limit must be accepted)
+                if (kind in ("d", "t", "draw", "traw") and lim >= need + allowance) or (kind == "l" and lim >= 4 * need):
                     ck.fail("c09:cli:refused-although-fits", f"{what}: refused although the unlimited single-threaded run needs only {need}")
             if len(ck.samples) < 16 and label == "0.9 need":
                 ck.samples.append(f"{what}: rc={rc} peak={peak}")
